@@ -283,11 +283,11 @@ Section gadget_sem.
 End gadget_sem.
 
 (* ================= whole-circuit theorem over the gadget structure ================= *)
-Theorem tern_shape_sound c T μ : tern_shape c T μ → ∀ v, consistent T v → kconsistent c (kof μ v).
+Theorem comp_sound c T (m : string → string) : (∀ n i, c !! n = Some i → T !! n = Some i ∧ comp_ok T m n i) →
+  ∀ v, consistent T v → kconsistent c (Kv v m).
 Proof.
-  intros (Hdom & Hall & _) v Hv n i Hn.
+  intros Hall v Hv n i Hn.
   destruct (Hall n i Hn) as [HT Hc]. pose proof (Hv n i HT) as Hok.
-  change (kof μ v) with (Kv v (mu_at μ)). set (m := mu_at μ) in *.
   unfold knode_ok. unfold node_ok, is_free in Hok. unfold comp_ok in Hc.
   destruct (n_ty i) eqn:Et; try done.
   - (* buf *) destruct Hc as (p & Hp & Hfi & Hm). rewrite Hfi in *.
@@ -320,6 +320,16 @@ Proof.
     + intros (p & Hp & Ep). exists (m p). split; [|done]. apply elem_of_map. eauto.
   - (* 0 *) unfold Kv. rewrite (sem_c0 T v Hv _ Hc), Hok. done.
   - (* 1 *) unfold Kv. rewrite (sem_c0 T v Hv _ Hc), Hok. done.
+Qed.
+Theorem tern_shape_sound c T μ : tern_shape c T μ → ∀ v, consistent T v → kconsistent c (kof μ v).
+Proof. intros (Hdom & Hall & _) v Hv. exact (comp_sound c T (mu_at μ) Hall v Hv). Qed.
+Lemma kconsistent_ext c (k k' : kval) : closed c → (∀ n, n ∈ dom c → k n = k' n) → kconsistent c k → kconsistent c k'.
+Proof.
+  intros Hcl He Hk n i Hn. specialize (Hk n i Hn). unfold knode_ok in *.
+  assert (Hn' : k n = k' n) by (apply He, elem_of_dom; eauto).
+  assert (Hl : k <$> elements (n_fi i) = k' <$> elements (n_fi i)).
+  { apply list_fmap_ext. intros ? p Hp%elem_of_list_lookup_2%elem_of_elements. apply He. eapply Hcl; eauto. }
+  rewrite <- Hn', <- Hl. done.
 Qed.
 
 (* ================= Kleene evaluation is sound for every completion of the X values ================= *)
